@@ -463,6 +463,8 @@ struct target {
 	struct type *typevalist;
 	struct type *typewchar;
 	int signedchar;
+	/* whether unnamed bit-fields contribute to the alignment of a struct (AAPCS64) */
+	int unnamedbitfieldalign;
 };
 
 extern const struct target *targ;
